@@ -1377,7 +1377,8 @@ def _emit_block(
 
         if isinstance(node, ForRangeLoop):
             limit_expr = _emit_expr(node.count)
-            counter = f"__redu_it_{node.var_name}" if node.private_counter else node.var_name
+            private = node.private_counter or node.outer_variable
+            counter = f"__redu_it_{node.var_name}" if private else node.var_name
             if node.hoist_count:
                 stop_name = f"__redu_stop_{node.var_name}"
                 lines.append(
@@ -1388,7 +1389,10 @@ def _emit_block(
                 lines.append(
                     f"{indent}for (int {counter} = 0; {counter} < {limit_expr}; ++{counter}) {{"
                 )
-            if node.private_counter:
+            if node.outer_variable:
+                # the variable exists outside the loop: assign it, do not shadow it
+                lines.append(f"{indent}  {node.var_name} = {counter};")
+            elif node.private_counter:
                 lines.append(f"{indent}  int {node.var_name} = {counter};")
             lines.extend(
                 _emit_block(
